@@ -755,7 +755,7 @@ def r_chase_visited(cx):
     cx.count("R-CHASE-VISITED", "membership_tests", wide)
 
 
-@rule("R-CHASE-NEEDLE", ["C04"])
+@rule("R-CHASE-NEEDLE", ["C04", "C09"])
 def r_chase_needle(cx):
     """A look-up value `$name(default)` is split into one or two parts; the *name* is the next needle. `chase` takes the
     needle off the end of that list, so at that `pop` the list holds exactly one element on every path: wherever the
@@ -795,6 +795,11 @@ def r_chase_needle(cx):
             if not excluded:
                 bad.append(p)
         ok = not bad
+        ne = _excludes_empty(f, guards.branch_facts(f, bb))
+        cx.ob("R-CHASE-NEEDLE", "chase/needle%d/nonempty" % (n - 1), ne,
+              "the list is known to hold the name when the next needle is taken from it" if ne else
+              "chase takes the next needle from a list that may be empty (`x=$`, `x=$()` leave nothing behind the sigil): "
+              "`parts.pop().unwrap()` panics instead of returning a syntax error", cx.where(t["span"]))
         cx.ob("R-CHASE-NEEDLE", "chase/needle%d" % (n - 1), ok,
               "the list holds exactly the name when the next needle is taken from it" if ok else
               "chase can take the next needle from a `$name(default)` list that still holds its default (the default is "
@@ -842,6 +847,31 @@ def r_default_latest(cx):
                   "chase records a default only on %s: for `inner = op x=$a(1)` invoked as `inner a=$b(5)` (or `a=(5)`) "
                   "without b, x is 1 where the expansion `inner a=5` gives 5" % bad, cx.where(s.get("span")))
     cx.count("R-DEFAULT-LATEST", "default_writes", n)
+
+
+def _excludes_empty(f, facts):
+    """do the branch decisions establish that some list has at least one element?"""
+    def length_of(x):
+        x = mir.strip_refs(x)
+        return x[0] == "call" and isinstance(x[1], str) and x[1].rsplit("::", 1)[-1] == "len"
+    for at, tv in facts:
+        at = mir.strip_refs(at)
+        if at[0] == "call" and isinstance(at[1], str) and at[1].endswith("::contains") and tv and len(at[2]) == 2 and length_of(at[2][1]):
+            arr = mir.strip_refs(at[2][0])
+            while arr[0] == "cast":
+                arr = mir.strip_refs(arr[2])
+            if arr[0] == "agg" and arr[1] == "array" and arr[2] and all(
+                    mir.strip_refs(e)[0] == "const" and isinstance(mir.strip_refs(e)[2], int) and mir.strip_refs(e)[2] >= 1 for e in arr[2]):
+                return True
+        if at[0] == "bin" and length_of(at[2]) and mir.strip_refs(at[3])[0] == "const" and isinstance(mir.strip_refs(at[3])[2], int):
+            c = mir.strip_refs(at[3])[2]
+            if (at[1] == "Eq" and tv and c >= 1) or (at[1] == "Ne" and not tv and c >= 1) or (at[1] == "Eq" and not tv and c == 0) or \
+                    (at[1] == "Ne" and tv and c == 0) or (at[1] == "Gt" and tv and c >= 0) or (at[1] == "Ge" and tv and c >= 1) or \
+                    (at[1] == "Lt" and not tv and c >= 1) or (at[1] == "Le" and not tv and c >= 0):
+                return True
+        if at[0] == "call" and isinstance(at[1], str) and at[1].endswith("Vec::<T, A>::is_empty") and not tv:
+            return True
+    return False
 
 
 @rule("R-FORWARD-SELF", ["C04"])
@@ -1050,3 +1080,122 @@ def normalize_pairs(cx):
                 pairs = pairs + [(p[0], p[1]) for p in v]
                 break
     return pairs
+
+
+@rule("R-PIPELINE-FAIL-FAST", ["C04"])
+def r_pipeline_fail_fast(cx):
+    """Instantiation of cyclic macro definitions ends in bounded time because the error raised at the nesting limit
+    unwinds the whole expansion: `pipeline::new` gives up at the first step that cannot be instantiated. From the
+    failure side of the `Op::op` call in its loop over the steps no path leads back into the loop - a constructor that
+    goes on to instantiate the remaining steps (to report them all, say) expands every reference of a cycle at every
+    level, k^depth visits for a body that refers to the cycle k times."""
+    name = "inner_op::pipeline::new"
+    if not cx.f.has_fn(name):
+        cx.ob("R-PIPELINE-FAIL-FAST", "anchor", False, "anchor-missing: %s" % name)
+        return
+    f = cx.f.fn(name)
+    n = 0
+    for bb, t in f.calls():
+        if not (f.callee(t) or "").endswith("op::Op::op"):
+            continue
+        lp = f.innermost_loop(bb)
+        if lp is None:
+            continue
+        fails = []
+        for b2 in sorted(f.reachable()):
+            sw = f.term(b2)
+            if sw["k"] != "switch":
+                continue
+            d = f.operand(sw["discr"], f.end_point(b2))
+            if d[0] != "discr":
+                continue
+            src = mir.strip_refs(d[1])
+            if src[0] == "call" and isinstance(src[1], str) and src[1].endswith("Try>::branch") and src[2]:
+                src = mir.strip_refs(src[2][0])
+            if not (src[0] == "call" and src[3] == bb):
+                continue
+            tg = dict((v, x) for v, x in sw["targets"])
+            if 1 in tg:
+                fails.append(tg[1])
+            elif 0 in tg:
+                fails.append(sw["otherwise"])
+        if not fails:
+            continue
+        n += 1
+        back = any(lp.header in f.reach_from([x], avoid=[]) for x in fails)
+        cx.ob("R-PIPELINE-FAIL-FAST", "pipeline/step-failure%d" % (n - 1), not back,
+              "pipeline::new gives up at the first step that cannot be instantiated" if not back else
+              "pipeline::new goes on with the remaining steps after one has failed: for a cyclic macro definition whose body "
+              "refers to the cycle k times, the error raised at the nesting limit no longer ends the expansion - every "
+              "reference is expanded at every level (k^depth instantiations)", cx.where(t["span"]))
+    cx.count("R-PIPELINE-FAIL-FAST", "step_instantiations", n)
+
+
+@rule("R-NORMALIZE-KEEPS-SEPARATORS", ["C03", "C16"])
+def r_normalize_keeps_separators(cx):
+    """`|`, `<` and `>` separate steps, and `<` / `>` in front of a step also mean `omit_fwd` / `omit_inv` for it - at the
+    very start of a definition as much as between two steps. `Tokenize::normalize` therefore never trims these signs
+    off the ends of the text (`.trim_matches(..)` with a pattern that holds one of them): `< addone | helmert x=2` would
+    silently lose the one-way marker of its first step."""
+    n = 0
+    base = "<T as token::Tokenize>::normalize"
+    for name in sorted(cx.f.lib["fns"]):
+        if not (name == base or name.startswith(base + "::{closure")):
+            continue
+        f = cx.f.fn(name)
+        for bb, t in f.calls():
+            tail = (f.callee(t) or "").rsplit("::", 1)[-1]
+            if not (tail.startswith("trim") or tail.startswith("strip_")) or len(f.arg_terms(bb)) < 2:
+                continue
+            n += 1
+            chars = []
+            mir.walk(f.arg_terms(bb)[1], lambda y: (chars.append(str(y[2][1])) if y[0] == "const" and isinstance(y[2], tuple) and
+                                                   len(y[2]) == 2 and y[2][0] in ("char", "str") else None) or True)
+            bad = sorted({c for p in chars for c in p if c in "|<>"})
+            cx.ob("R-NORMALIZE-KEEPS-SEPARATORS", "normalize/%s%d" % (tail, n - 1), not bad,
+                  "normalize trims %s off the ends of the text - no step separator" % (chars,) if not bad else
+                  "normalize trims %s off the ends of the definition: a leading `<` or `>` is the omit_fwd / omit_inv marker "
+                  "of the first step, which then runs in both directions" % (bad,), cx.where(t["span"]))
+    if n == 0:
+        cx.ob("R-NORMALIZE-KEEPS-SEPARATORS", "normalize/none", True, "normalize trims no characters off the ends of the text",
+              nontrivial=False)
+    cx.count("R-NORMALIZE-KEEPS-SEPARATORS", "functions", 1 if cx.f.has_fn(base) else 0)
+
+
+@rule("R-FLAG-CASEFOLD", ["C03", "C16"])
+def r_flag_casefold(cx):
+    """A flag given in its `=true` form is on whatever the case of the word (`inv=True`, `inv = TRUE`): the elementary
+    operators' Flag parameters fold the case before comparing, and so does every other place that looks at the value of
+    `inv` or `omit_*` - the macro branch of Op::op included, or `my:macro inv=True` is instantiated *not* inverted without
+    any error while `addone inv=True` is. Every comparison of a parameter value with the literal `true` in op:: and
+    token:: has a lower-cased left-hand side (or ignores the case itself)."""
+    n = 0
+    for name in sorted(cx.f.lib["fns"]):
+        if "::tests::" in name or not name.startswith(("op::", "token::", "<T as token::", "inner_op::pipeline")):
+            continue
+        f = cx.f.fn(name)
+        k = 0
+        for bb, t in f.calls():
+            c = f.callee(t) or ""
+            tail = c.rsplit("::", 1)[-1]
+            if tail not in ("eq", "ne", "eq_ignore_ascii_case"):
+                continue
+            a = f.arg_terms(bb)
+            lits = [i for i, x in enumerate(a) if K._const_key(x) == "true"]
+            if len(a) != 2 or len(lits) != 1:
+                continue
+            n += 1
+            other = a[1 - lits[0]]
+            if other[0] == "refplace" and not other[3]:
+                other = f.local_value(other[2], f.end_point(bb))
+            folded = tail == "eq_ignore_ascii_case"
+            hit = []
+            mir.walk(other, lambda y: (hit.append(1) if y[0] == "call" and isinstance(y[1], str) and
+                                       y[1].rsplit("::", 1)[-1] in ("to_lowercase", "to_ascii_lowercase", "make_ascii_lowercase") else None) or True)
+            folded = folded or bool(hit)
+            cx.ob("R-FLAG-CASEFOLD", "%s/true%d" % (name, k), folded,
+                  "%s compares a lower-cased value with `true`" % name if folded else
+                  "%s compares a parameter value with `true` without folding its case: `inv=True` is taken for `not given` "
+                  "here, while the other places that read the flag accept it" % name, cx.where(t["span"]))
+            k += 1
+    cx.count("R-FLAG-CASEFOLD", "comparisons", n)
